@@ -465,7 +465,11 @@ def apply(text, args):
     elif kind == 'is_some_and':
         new = '(match %s { Some(%s) => %s, None => false })' % (recv.strip(), pat, body)
     elif kind == 'and_then':
-        new = '(match %s { Some(%s) => %s, None => None })' % (recv.strip(), pat, body)
+        if pat.startswith('&'):
+            # `|&x| B`: Verus has no reference patterns; bind the reference and copy out of it
+            new = '(match %s { Some(__t4_p) => { let %s = *__t4_p; %s }, None => None })' % (recv.strip(), pat[1:].strip(), body)
+        else:
+            new = '(match %s { Some(%s) => %s, None => None })' % (recv.strip(), pat, body)
     elif kind == 'is_ok_and':
         new = '(match %s { Ok(%s) => %s, Err(_) => false })' % (recv.strip(), pat, body)
     elif kind == 'is_none_or':
